@@ -9,6 +9,12 @@ Script families (all judged by the same direct oracle `evaluate`):
                                                       calls of different goroutines overlap deterministically
   ref     stage=FoldM mon=[slow<d>:]ref:<base>        reference-typed carrier (*cell), Empty() returns a fresh cell,
                                                       Combine accumulates in place into its left operand
+  same    stage=FoldM mon=[slow<d>:]ref:same:<base>  as ref, but equal element values are THE SAME *cell object: one caller-
+                                                      owned object occurs several times in the input (a shared constant)
+Every ref script ends with r1, the harness's inspection of the caller's side after the run: every cell handed over must
+still hold the value it was sent with (with a fresh Empty() the accumulators are the library's, the elements are not; each
+element is combined once, i.e. read once), and the sequential left fold over the very same objects must still be the
+value fork.Fold delivered ("equal to pipe.Fold's left fold of the same input").
 The FoldM families are outside what the model expresses (no clock in Go/ForkFold, the ref adapter holds one
 element): direct oracle only, no model comparison (see go/harness/lockstep/forkfold_test.go).
 """
@@ -57,13 +63,21 @@ def gen_procs(rng):
     return gen_script(rng, pars=[2, 3, 4, 4, 8, 8], mons=mons, extra=" procs=%d" % procs, len8=2)  # (the model's state set for par=8 grows fast with the input length)
 
 
-def gen_variant(rng, slow, ref):
-    """FoldM: slow and / or reference-typed monoid. Ends with enough virtual time for every Combine to return."""
-    par = rng.choice([1, 2, 2, 3, 4, 8])
+def gen_variant(rng, slow, ref, same=False):
+    """FoldM: slow and / or reference-typed monoid. Ends with enough virtual time for every Combine to return.
+    same: the input is drawn from 1..3 distinct values, equal values being one shared object (ref:same)."""
+    par = rng.choice([1, 1, 2, 3, 4, 8] if same else [1, 2, 2, 3, 4, 8])
     n = rng.choice([0, 1, 2]) if rng.random() < 0.2 else rng.randrange(1, 8)
     xs = [rng.randrange(1, 60) for _ in range(n)]
     d = rng.choice([1, 2, 5]) if slow else 0
-    mon = ("slow%d:" % d if slow else "") + ("ref:" if ref else "") + rng.choice(sorted(MONOIDS))
+    base = rng.choice(sorted(MONOIDS))
+    if same:
+        n = rng.randrange(2, 9)
+        pool = [rng.randrange(1, 60) for _ in range(rng.choice([1, 1, 2, 3]))]
+        xs = [rng.choice(pool) for _ in range(n)]
+        if rng.random() < 0.6:
+            base = rng.choice(["sum", "prod"])   # not idempotent: an element combined with itself shows in the value
+    mon = ("slow%d:" % d if slow else "") + ("ref:" if ref else "") + ("same:" if same else "") + base
     extra = " procs=%d" % rng.choice([1, 2]) if rng.random() < 0.25 else ""
     cfg = "stage=FoldM pkg=fork par=%d cap=%d mon=%s%s" % (par, rng.choice([0, 1, 2, 5, 8]), mon, extra)
     sends = ["s%d" % x for x in xs] + ["c0"]
@@ -71,7 +85,34 @@ def gen_variant(rng, slow, ref):
     pauses = ["t%d" % rng.choice([1, d, 2 * d + 1]) for _ in range(rng.randrange(0, 4))] if slow else []
     body = ls.interleave(rng, [sends, recvs, pauses])
     # (n + par + 1) Combine calls in a row take at most 17 * 5 virtual ms
-    return cfg + " | " + " ".join(body + ["t1000", "r0", "r0", "r0", "z"])
+    return cfg + " | " + " ".join(body + ["t1000", "r0", "r0", "r0", "z"] + (["r1"] if ref else []))
+
+
+def is_ref(cfg):
+    return "ref" in cfg["mon"].split(":")[:-1]
+
+
+def inspect_inputs(script, tr, want, got, key):
+    """ref scripts: the harness's view of the caller's cells (pseudo output r1: w<orig>=<now>,…/f<fold>) after the result
+    channel was closed"""
+    vs, closed = [], False
+    for mv, res, _ in tr.steps:
+        if mv == "r0" and res == "closed":
+            closed = True
+        if mv != "r1" or not closed or not res.startswith("w") or "/f" not in res:
+            continue
+        cells, _, refold = res[1:].partition("/f")
+        pairs = [tuple(int(v) for v in p.split("=")) for p in cells.split(",") if p]
+        changed = [(o, n) for o, n in pairs if o != n]
+        xs = tr.sent.get(0, [])
+        if changed or int(refold) != want:
+            vs.append(vlib.Violation("impl", "fork.Fold par=%s over the %s monoid (Empty() returns a fresh accumulator, Combine accumulates into its left operand and only reads "
+                                     "the right one) modified its input %s: %s; it delivered %s, the sequential fold of the very same input objects now gives %s, of the input as sent %s"
+                                     % (tr.cfg["par"], tr.cfg["mon"], xs, ", ".join("the element sent as %d now holds %d" % c for c in changed) or "-", got, refold, want),
+                                     case=script, expected={"elements": [o for o, _ in pairs], "fold": want}, got={"elements": [n for _, n in pairs], "fold": int(refold), "delivered": got},
+                                     key=dict(key, **{"class": "input-modified"})))
+        break
+    return vs
 
 
 def evaluate(script, tr):
@@ -95,6 +136,8 @@ def evaluate(script, tr):
         pass  # input not closed: nothing may have been delivered yet
     if got and 0 not in tr.closed_in:
         vs.append(vlib.Violation("impl", "fork.Fold delivered %s before its input was closed" % got, case=script, key=key))
+    if is_ref(cfg) and 0 in tr.closed_in:
+        vs += inspect_inputs(script, tr, want, got, key)
     for pos, n in tr.census:
         # goroutine exit is claimed by C06/C09, not by C10: no violation here (the model comparison still sees it)
         if False and 0 in tr.closed and n != 0:
@@ -178,7 +221,10 @@ def run(ctx):
                        "Families (distribution.variant / distribution.procs): plain; procs = the same scripts with the harness process limited to GOMAXPROCS 1 or 2 and par up to 8 "
                        "(non-zero identities favoured), both compared with the Lean model; slow = Combine takes 1/2/5 virtual ms under synctest and the script lets time pass in t<d> moves, so "
                        "Combine calls of different goroutines overlap; ref = reference-typed carrier (*cell; Empty() returns a fresh cell, Combine accumulates in place into its left operand), "
-                       "par = 1 included. slow and ref scripts (coverage.direct_oracle_only) are NOT compared with the model (it has no clock; the *cell adapter holds one element): they are "
+                       "par = 1 included; same = ref with equal element values being ONE shared *cell object (2..8 elements over 1..3 distinct objects, sum/prod favoured: "
+                       "distribution.ref_max_occurrences_of_one_object); every ref script ends with an inspection of the caller's cells after the result channel closed "
+                       "(distribution.ref_inputs_inspected): each still holds the value it was sent with and the left fold over the same objects equals the delivered value. "
+                       "slow and ref scripts (coverage.direct_oracle_only) are NOT compared with the model (it has no clock; the *cell adapter holds one element): they are "
                        "judged by the direct oracle only: exactly one value, equal to the sequential fold of the completed sends, then closed, no goroutine left.")
     ctx.assumptions += ls.ASSUME
     ls.regen_stages(ctx, pipe=False, fork=True)
@@ -192,6 +238,8 @@ def run(ctx):
         scripts = [gen_script(ctx.rng) for _ in range(400 * k)]
         scripts += [gen_procs(ctx.rng) for _ in range(100 * k)]
         scripts += [gen_variant(ctx.rng, True, False) for _ in range(80 * k)]
+        scripts += [gen_variant(ctx.rng, False, True, same=True) for _ in range(60 * k)]
+        scripts += [gen_variant(ctx.rng, True, True, same=True) for _ in range(20 * k)]
         scripts += [gen_variant(ctx.rng, False, True) for _ in range(60 * k)]
         scripts += [gen_variant(ctx.rng, True, True) for _ in range(40 * k)]
     binp, err = ls.build(ctx)
@@ -205,6 +253,11 @@ def run(ctx):
             ctx.hist("variant", variant(tr.cfg))
             ctx.hist("procs", tr.cfg.get("procs", "default"))
             ctx.hist("len", len(tr.sent.get(0, [])))
+            if is_ref(tr.cfg):
+                xs = tr.sent.get(0, [])
+                if "same" in tr.cfg["mon"].split(":"):
+                    ctx.hist("ref_max_occurrences_of_one_object", max([xs.count(x) for x in xs] or [0]))
+                ctx.hist("ref_inputs_inspected", sum(1 for mv, res, _ in tr.steps if mv == "r1" and res.startswith("w")))
             ctx.count(s, nontrivial=int(tr.cfg["par"]) >= 2 and len(tr.sent.get(0, [])) >= 2)
     if ctx.thorough() and not ctx.replay:
         ls.stress(ctx, ["forkfold"], 15, {"stage": "Fold", "pkg": "fork"})
